@@ -194,13 +194,19 @@ def run_tlc(ctx, module, cfg, tag, workers=4, timeout=900, env_extra=None, simul
     return res
 
 
+def _decode_printed(xs):
+    return [json.loads(x) if isinstance(x, str) and x.startswith("{") else x for x in xs]
+
+
 def judge_trace(ctx, module, cfg, trace_path, tag, timeout=1800, xmx="4g", env_extra=None):
-    """Run a Trace_* spec over an ndjson trace. Returns (TlcResult, mismatches as dicts)."""
+    """Run a Trace_* spec over an ndjson trace. Returns (TlcResult, mismatches as dicts).
+    Other printed tags stay available (decoded) in res.decoded[tag]."""
     env = {"TRACE": trace_path}
     if env_extra:
         env.update(env_extra)
     res = run_tlc(ctx, module, cfg, tag, workers=1, timeout=timeout, env_extra=env, xmx=xmx)
-    mism = [json.loads(x) if isinstance(x, str) and x.startswith("{") else x for x in res.printed.get("MISMATCH", [])]
+    res.decoded = {t: _decode_printed(v) for t, v in res.printed.items()}
+    mism = res.decoded.get("MISMATCH", [])
     return res, mism
 
 
@@ -232,8 +238,10 @@ def split_trace(path, parts):
     return files
 
 
-def judge_trace_parallel(ctx, module, cfg, trace_path, tag, parts=8, timeout=1800, xmx="3g", env_extra=None):
-    """Judge a big trace with several JVMs in parallel. Returns (total events, mismatches)."""
+def judge_trace_parallel(ctx, module, cfg, trace_path, tag, parts=8, timeout=1800, xmx="3g", env_extra=None,
+                         other_tags=None):
+    """Judge a big trace with several JVMs in parallel. Returns (total events, mismatches);
+    when other_tags (a dict tag -> list) is given, lines printed under those tags are appended to it."""
     import concurrent.futures
     files = split_trace(trace_path, parts)
     total, mism, wall = 0, [], 0.0
@@ -245,6 +253,9 @@ def judge_trace_parallel(ctx, module, cfg, trace_path, tag, parts=8, timeout=180
         for res, mm in ex.map(one, list(enumerate(files))):
             total += res.distinct - 1
             mism.extend(mm)
+            if other_tags is not None:
+                for t in other_tags:
+                    other_tags[t].extend(res.decoded.get(t, []))
     return total, mism
 
 
